@@ -364,6 +364,26 @@ def termination_ctors(ck, ctx, rule):
             ok, _ = Q.gated(cfg, bb, gates)
             ok2, _ = Q.gated(cfg, bb, {(x, fl) for (x, tl) in g_s for fl in [Q.bool_edges(rc.blocks[x]["term"])[1]]})
             ck.ob(rule, "posix|interrupted-gated", ok and ok2, "Termination::Interrupted only when status.signal() == SIGINT (2) and the status is not success (gates %s)" % sorted(gates), span=s.get("loc"), fn=rc.nname)
+        # conversely: death by SIGINT is always reported as Interrupted, and success() always as Success (no other constructor on those edges)
+        sig_gates = set()
+        for sbb, st, de in Q.switches(ctx, rc):
+            if any(c[1].endswith("ExitStatusExt>::signal") or c[1].endswith("::signal") for c in calls_in(de)) and de[0] != "discr":
+                for v, tgt in st["arms"]:
+                    if v == 2:
+                        sig_gates.add((sbb, 2))
+        cons_blocks = {}
+        for (owner_, v_), lst_ in seen.items():
+            if owner_ == rc.nname:
+                for b_, bb_, s_ in lst_:
+                    if b_.kind != "promoted":
+                        cons_blocks.setdefault(v_, []).append(bb_)
+        for what, gates_, want_ in (("sigint=>interrupted", sig_gates, "Interrupted"), ("success=>success", g_s, "Success")):
+            starts_ = [tt for (x, lab) in gates_ for tt in cfg.edge_targets(x, lab)]
+            others_ = [bb_ for v_, bl in cons_blocks.items() if v_ != want_ for bb_ in bl]
+            r_all = cfg.reach_avoid(starts_)
+            r_wo = cfg.reach_avoid(starts_, avoid_blocks=cons_blocks.get(want_, []))
+            ok_ = bool(starts_) and not any(x in r_all for x in others_) and not (set(cfg.returns()) & r_wo)
+            ck.ob(rule, "posix|" + what, ok_, "on the %s edge the only Termination constructed before returning is %s" % ("signal() == SIGINT" if "sig" in what else "status.success()", want_), span=rc.loc, fn=rc.nname)
         # status is waitpid's
         okw = False
         R = ctx.res(rc)
